@@ -67,3 +67,18 @@ def run(ctx, strategy, check_case, n, shrink_budget=None, seed_extra=0, phases=N
         ctx.violations.append(state['best'])
         return False
     return True
+
+
+def run_enum(ctx, cases, check_case, max_violations=1):
+    """Execute an enumerated (finite) family of cases; stops after ``max_violations`` failures."""
+    for case in cases:
+        try:
+            ctx.begin(case)
+            check_case(ctx, case)
+        except Violation as v:
+            if v.case is None:
+                v.case = case
+            ctx.violations.append(v)
+            if len(ctx.violations) >= max_violations:
+                return False
+    return True
